@@ -99,6 +99,8 @@ W_OUTER = [
     "0 <= col && col <= g_nc && 0 <= row && row <= g_nr",
     "gp_cb[col] == gp_nrw[row]",
     "g_malformed == 0 && g_header == 1 && g_endata == 0 && g_cur_kind == 0 && g_cur_col == -1 && g_cur_row == -1",
+    "gp_buf == 0 || gp_buf == buf",
+    "0 <= g_nrec && g_nrec <= col && 0 <= g_c1_seen && g_c1_seen <= 1 && 0 <= g_c2_seen && g_c2_seen <= 1 && 0 <= g_r_seen && g_r_seen <= 1",
     imp(G1, "col <= g_c1 ? g_c1_seen == 0 : " + coldone("g_c1", "g_c1")),
     imp(G2, "col <= g_c2 ? g_c2_seen == 0 : " + coldone("g_c2", "g_c2")),
     imp(G1 + " && " + G2 + " && g_c1 < g_c2 && col > g_c2 && gp_cs[g_c1] > 0 && gp_cs[g_c2] > 0", "g_c1_row < g_c2_row"),
@@ -116,7 +118,7 @@ W_INNER = [
 WFN = r"H::body\(.*this\)"
 def writer_loops(outer, inner):
     return [
-        {"function": WFN, "loop": outer, "locals": ["col", "row"], "invariants": W_OUTER, "assigns": W_OUTER_ASSIGNS, "decreases": "g_nc - col"},
+        {"function": WFN, "loop": outer, "locals": ["col", "row", "buf"], "invariants": W_OUTER, "assigns": W_OUTER_ASSIGNS, "decreases": "g_nc - col"},
         {"function": WFN, "loop": inner, "locals": ["col", "row"], "invariants": W_INNER, "assigns": ["row"], "decreases": "g_nr - row"},
     ]
 
@@ -137,6 +139,82 @@ instances = [
          mut("ul_for_lower", "writeBasis", "if(thedesc.colStatus(col) == Desc::P_ON_UPPER)", "if(thedesc.colStatus(col) == Desc::P_ON_LOWER)"),
          mut("row_name_for_column", "writeBasis", 'os << std::setw(8) << getColName(theLP, col, colNames, buf);', 'os << std::setw(8) << getRowName(theLP, col, colNames, buf);'),
          mut("cpx_range_ignored", "writeBasis", "|| theLP->LPRowSetBase<R>::type(row) == LPRowBase<R>::RANGE))", "|| theLP->LPRowSetBase<R>::type(row) == LPRowBase<R>::EQUAL))"),
+     ]},
+]
+
+
+# ---------------------------------------------------------------------------------------------- reader loops
+RFN = r"H::body\(this\)"
+TC = "(g_lastc == 0 ? g_defc : (g_lastc == 1 || g_lastc == 2) ? g_dualc : g_lastc == 3 ? g_PU : g_PL)"
+TR = "(g_lastr == 0 ? g_defr : g_lastr == 1 ? (g_type_r == g_GE ? g_PL : g_type_r == g_EQ ? g_PF : g_PU) : (g_type_r == g_LE ? g_PU : g_type_r == g_EQ ? g_PF : g_PL))"
+ROWSET = "(g_usecols ? 2 : 3)"
+def reader_loops(ids, exact_names):
+    """ids: CBMC loop ordinals of (column names, row names, row init, column init, record loop); locals by symbol suffix"""
+    cn, rn, ri, ci, w = ids
+    L = []
+    inv_cn = ["0 <= j && j <= g_nc", "g_ns_num[2] == j && g_ns_num[3] == 0 && g_ns_num[0] == g_nr && g_ns_num[1] == g_nc", "g_alloc == 1 && g_usecols == 0 && g_freed == 0"]
+    inv_rn = ["0 <= i && i <= g_nr", "g_ns_num[%s] == i" % ROWSET, "g_userows == 0 && g_freed == 0 && g_alloc == 2 - g_usecols",
+              imp("!g_usecols", "g_ns_num[2] == g_nc"), "g_ns_num[0] == g_nr && g_ns_num[1] == g_nc"]
+    if exact_names:
+        inv_cn.append(imp(G1, "j <= g_c1 ? g_regc_cnt == 0 : (g_regc_cnt == 1 && g_regc_form == 2 && g_regc_lit == 120 && g_regc_val == g_c1)"))
+        inv_cn.append("j == 0 ? g_ss_form == 0 : 1")
+        inv_rn.append(imp(GR, "i <= g_r ? g_regr_cnt == 0 : (g_regr_cnt == 1 && g_regr_form == 2 && g_regr_lit == 67 && g_regr_val == g_r)"))
+        inv_rn.append("i == 0 ? g_ss_form == 0 : 1")
+    else:
+        inv_cn.append("0 <= g_regc_cnt && g_regc_cnt <= 1")
+        inv_rn.append("0 <= g_regr_cnt && g_regr_cnt <= 1")
+        inv_cn.append(imp(G1, "j <= g_c1 ? g_regc_cnt == 0 : 1"))
+        inv_rn.append(imp(GR, "i <= g_r ? g_regr_cnt == 0 : 1"))
+    ss = ["g_ss_form", "g_ss_lit", "g_ss_val", "g_str_form", "g_str_lit", "g_str_val"]
+    L.append({"function": RFN, "loop": cn, "locals": ["j"], "invariants": inv_cn,
+              "assigns": ["j", "__CPROVER_object_whole(g_ns_num)", "__CPROVER_object_whole(g_ns_iscol)", "g_regc_cnt", "g_regc_form", "g_regc_lit", "g_regc_val"] + ss,
+              "decreases": "g_nc - j"})
+    L.append({"function": RFN, "loop": rn, "locals": [["i", "2::1::i"]], "invariants": inv_rn,
+              "assigns": ["i", "__CPROVER_object_whole(g_ns_num)", "__CPROVER_object_whole(g_ns_iscol)", "g_regr_cnt", "g_regr_form", "g_regr_lit", "g_regr_val"] + ss,
+              "decreases": "g_nr - i"})
+    L.append({"function": RFN, "loop": ri, "locals": [["i", "3::i"]],
+              "invariants": ["0 <= i && i <= g_nr", imp(GR + " && i > g_r", "gp_rs[g_r] == g_defr")],
+              "assigns": ["i", "__CPROVER_object_whole(gp_rs)"], "decreases": "g_nr - i"})
+    L.append({"function": RFN, "loop": ci, "locals": [["i", "4::i"]],
+              "invariants": ["0 <= i && i <= g_nc", imp(G1 + " && i > g_c1", "gp_cs[g_c1] == g_defc")],
+              "assigns": ["i", "__CPROVER_object_whole(gp_cs)"], "decreases": "g_nc - i"})
+    L.append({"function": RFN, "loop": w, "locals": ["mps"],
+              "invariants": ["*gp_mps_has_error == 0 && *gp_mps_section == g_SEC_NAME",
+                             "0 <= g_lastc && g_lastc <= 4 && (g_lastr == 0 || g_lastr == 1 || g_lastr == 2)",
+                             imp(G1, "gp_cs[g_c1] == " + TC), imp(GR, "gp_rs[g_r] == " + TR),
+                             "g_bad_lookup == 0 && g_unknown == 0 && g_loaddesc_calls == 0 && g_setstatus_calls == 0"],
+              "assigns": ["__CPROVER_object_whole(gp_mps)", "__CPROVER_object_whole(gp_rs)", "__CPROVER_object_whole(gp_cs)", "g_line_kind", "g_line_c", "g_line_r",
+                          "g_line_data", "g_lastc", "g_lastr", "g_unknown", "g_bad_lookup"]})
+    return L
+
+R_MUTANTS = [
+    mut("xu_row_at_lower", "readBasis", "else\n               l_desc.rowstat[r] = Desc::P_ON_UPPER;\n         }\n         else if(!strcmp(mps.field1(), \"XL\"))", "else\n               l_desc.rowstat[r] = Desc::P_ON_LOWER;\n         }\n         else if(!strcmp(mps.field1(), \"XL\"))"),
+    mut("ul_ll_swapped", "readBasis", "l_desc.colstat[c] = Desc::P_ON_UPPER;\n         }\n         else if(!strcmp(mps.field1(), \"LL\"))", "l_desc.colstat[c] = Desc::P_ON_LOWER;\n         }\n         else if(!strcmp(mps.field1(), \"LL\"))"),
+    mut("xl_column_not_basic", "readBasis", "else if(!strcmp(mps.field1(), \"XL\"))\n         {\n            l_desc.colstat[c] = dualColStatus(c);", "else if(!strcmp(mps.field1(), \"XL\"))\n         {\n            l_desc.colstat[c] = Desc::P_ON_LOWER;"),
+    mut("unknown_column_accepted", "readBasis", "if((c = cNames->number(mps.field2())) < 0)\n            break;", "if((c = cNames->number(mps.field2())) < -1)\n            break;"),
+    mut("row_status_on_column_index", "readBasis", "l_desc.rowstat[r] = Desc::P_ON_UPPER;\n         }\n         else if(!strcmp(mps.field1(), \"XL\"))", "l_desc.rowstat[c] = Desc::P_ON_UPPER;\n         }\n         else if(!strcmp(mps.field1(), \"XL\"))"),
+    mut("load_without_endata", "readBasis", "if(mps.section() == MPSInput::ENDATA)\n      {", "if(mps.section() == MPSInput::NAME)\n      {"),
+    mut("default_free_column_at_lower", "readBasis", "l_desc.colstat[i] = Desc::P_FREE;", "l_desc.colstat[i] = Desc::P_ON_LOWER;"),
+    mut("basic_rows_start_nonbasic", "readBasis", "l_desc.rowstat[i] = dualRowStatus(i);", "l_desc.rowstat[i] = Desc::P_ON_LOWER;"),
+]
+READ_IDS = (0, 1, 2, 3, 4)
+instances += [
+    {"name": "readBasis", "function": "SPxBasisBase<R>::readBasis(std::istream& is, const NameSet* rowNames, const NameSet* colNames) [name sets supplied]",
+     "defines": {"INST_READ": "", "USER_NAMES": ""}, "harness": "h_readBasis", "enforce": "w_readBasis",
+     "slices": COMMON + [S_READ], "loops": reader_loops(READ_IDS, False), "min_obligations": 300, "tier": "quick", "expected_s": 60,
+     "mutants": R_MUTANTS},
+    {"name": "readBasis_default_names", "function": "SPxBasisBase<R>::readBasis(std::istream& is, const NameSet* rowNames, const NameSet* colNames) [any combination of supplied / default name sets]",
+     "defines": {"INST_READ": ""}, "harness": "h_readBasis", "enforce": "w_readBasis",
+     "slices": COMMON + [S_READ], "loops": reader_loops(READ_IDS, False), "min_obligations": 300, "tier": "quick", "expected_s": 90,
+     "mutants": [
+         mut("row_set_not_freed", "readBasis", "p_rowNames->~NameSet();\n      spx_free(p_rowNames);", "p_rowNames->~NameSet();"),
+         mut("row_names_one_short", "readBasis", "for(int i = 0; i < nRows; ++i)\n      {\n         name << \"C\" << i;", "for(int i = 0; i < nRows - 1; ++i)\n      {\n         name << \"C\" << i;"),
+     ]},
+    {"name": "readBasis_default_names_exact", "function": "SPxBasisBase<R>::readBasis(...) [clause: the default name registered for column j / row i is exactly x<j> / C<i>]",
+     "defines": {"INST_READ": "", "CLAUSE_DEFAULT_NAMES_EXACT": ""}, "harness": "h_readBasis", "enforce": "w_readBasis",
+     "slices": COMMON + [S_READ], "loops": reader_loops(READ_IDS, True), "min_obligations": 300, "tier": "thorough", "expected_s": 90,
+     "mutants": [
+         mut("column_letter", "readBasis", "name << \"x\" << j;", "name << \"y\" << j;"),
      ]},
 ]
 
